@@ -586,6 +586,9 @@ def run_script(script: dict) -> dict:
     base_threads = set(threading.enumerate())
     folder = tempfile.mkdtemp(prefix="verif-ckpt-")
     folder2 = tempfile.mkdtemp(prefix="verif-ckpt2-")      # explicit checkpoints may go to a folder other than the saving folder
+    as_arg = (lambda f: f)
+    if cfg.get("seed", 0) % 2:                             # create_checkpoint / restore_from_checkpoint take str or os.PathLike
+        from pathlib import Path as as_arg                 # (saving_folder is declared str: always given as str)
     prev_kind = None
     install()
     cal = None
@@ -634,13 +637,13 @@ def run_script(script: dict) -> dict:
                         cleanup_threads(cal, base_threads)
                 elif kind == "mkckpt":
                     if cfg.get("elsewhere"):
-                        cal.create_checkpoint(folder2)
-                    cal.create_checkpoint(folder)
+                        cal.create_checkpoint(as_arg(folder2))
+                    cal.create_checkpoint(as_arg(folder))
                     rec.log({"e": "mkckpt"})
                     rec.log(disk_event(rec, folder))
                 elif kind == "restore":
                     src = folder2 if cfg.get("elsewhere") and prev_kind == "mkckpt" else folder
-                    cal = Calibrator.restore_from_checkpoint(src, model=current_model())
+                    cal = Calibrator.restore_from_checkpoint(as_arg(src), model=current_model())
                     rec.cal = cal
                     rec.log({"e": "restore"})
                     rec.log(idle_event(rec, cal, base_threads, False))
